@@ -222,6 +222,7 @@ class Scenario:
 
     def run(self):
         try:
+            t_spawn = time.time()
             self.c.start()
             if self.kind == "takeover":
                 # an address registered by one connection is registered again by a second connection of the same node
@@ -254,6 +255,10 @@ class Scenario:
                 self.reg("c2", "a2", "w2")
                 self.reg("c3", "a3", "w2")
                 time.sleep(2.0)
+                # every node pulls a full copy of the others' instances 1 s, 15 s and 45 s after ITS start: an update that is
+                # not announced would be repaired by the last of these pulls and the scenario would say nothing about the
+                # announcement (a seeded change went unnoticed that way in a regression run of session 6) - wait them out
+                time.sleep(max(0.0, 56.0 - (time.time() - t_spawn)))
                 self.hupd(2, "a1", "w3")
                 self.hupd(3, "a2", "w4")
                 self.hupd(1, "a3", "w3")
